@@ -26,6 +26,8 @@ CONSTANTS GMin, GMax,     \* global min / max message latency (ms) from the Buil
           HostCtlOps,     \* the subset that host code may issue during its turn
           AllowManual,    \* SentRef::deliver in the alphabet
           FailModes,      \* subset of BOOLEAN: fail_rate > 0 configured or not
+          RegOrder,       \* the hosts in registration order (hosts are numbered in ADDRESS order; the
+                          \* two orders differ when addresses were looked up before registration)
           MaxMsgs, MaxSteps, MaxCtl, MaxLatCtl
 
 VARIABLES
@@ -44,8 +46,17 @@ VARIABLES
 ivars == <<phase, todo, cur, lstate, gmax, lover, sent, dlv, nctl, nlat>>
 vars  == <<pvars, ivars, last>>
 
-\* links in registration order: host b registers links (1,b), (2,b), ... (b-1,b)
-LinkLess(p, q) == p[2] < q[2] \/ (p[2] = q[2] /\ p[1] < q[1])
+\* registration orders usable from a configuration file (RegOrder <- RegXYZ)
+Reg12 == <<1, 2>>          Reg21 == <<2, 1>>
+Reg123 == <<1, 2, 3>>      Reg231 == <<2, 3, 1>>      Reg321 == <<3, 2, 1>>
+Reg1234 == <<1, 2, 3, 4>>  Reg3142 == <<3, 1, 4, 2>>
+
+\* links in registration order: the k-th registered host creates its links to the hosts
+\* registered before it, in their registration order (World::register)
+RegPos(h) == CHOOSE i \in 1..N : RegOrder[i] = h
+Later(p)   == IF RegPos(p[1]) > RegPos(p[2]) THEN RegPos(p[1]) ELSE RegPos(p[2])
+Earlier(p) == IF RegPos(p[1]) > RegPos(p[2]) THEN RegPos(p[2]) ELSE RegPos(p[1])
+LinkLess(p, q) == Later(p) < Later(q) \/ (Later(p) = Later(q) /\ Earlier(p) < Earlier(q))
 LinkSeq == SetToSortSeq(Pairs, LinkLess)
 
 EffMin(p) == IF lover[p] = <<>> THEN GMin ELSE lover[p].min
@@ -87,11 +98,11 @@ Drained(h, k) ==   \* ids handed to h from the first k links of LinkSeq
     IF k = 0 THEN <<>>
     ELSE Drained(h, k - 1) \o (IF h \in {LinkSeq[k][1], LinkSeq[k][2]} THEN dlv[LinkSeq[k]][h] ELSE <<>>)
 
-\* The hosts run in registration order, or in an order shuffled with the world
+\* The hosts run in registration order (Sim::rts is an IndexMap filled by Sim::host), or in an order shuffled with the world
 \* rng (Builder::enable_random_order): any remaining host may be next.
 TurnBegin(h) ==
     /\ phase = "turn" /\ h \in todo
-    /\ (RandomOrder \/ \A g \in todo : h <= g)
+    /\ (RandomOrder \/ \A g \in todo : RegPos(h) <= RegPos(g))
     /\ LET got == Drained(h, Len(LinkSeq))
            at == (pstep - 1) * Tick
        IN /\ cur' = h /\ todo' = todo \ {h}
